@@ -177,6 +177,11 @@ func encLines(t *keyTable, ls []absLine) string {
 
 func randLine(r *RNG, ios bool, remarkOK bool) absLine {
 	if remarkOK && ios && r.Chance(6) {
+		if r.Chance(40) {
+			// remark texts that look like the start of an entry (protocol names and numbers, masks, port names)
+			return absLine{Act: "remark", Text: Pick(r, []string{"ospf neighbors", "gre tunnel 47", "tcp host 10.1.2.3 eq www",
+				"17 is udp", "esp ah", "icmp 10.1.2.3 255.255.255.255 echo", "permit 6 any any eq ssh log"})}
+		}
 		return absLine{Act: "remark", Text: fmt.Sprintf("note%d", r.Intn(4))}
 	}
 	l := absLine{Act: "permit", Proto: Pick(r, []string{"tcp", "tcp", "udp", "ip"}), Src: r.Intn(len(srcNets))}
